@@ -272,6 +272,7 @@ func (ex *Exec) applyContract(fr *Frame, st *State, c *FuncContract, pnames []st
 	}
 	// post state
 	ex.havocModifies(st, c, env, fr)
+	ex.applyGhostSets(st, c, env)
 	for _, pn := range c.Calls {
 		// a function-typed parameter the callee invokes: whatever that function may write is written
 		var clo *Closure
@@ -317,6 +318,35 @@ func (ex *Exec) applyContract(fr *Frame, st *State, c *FuncContract, pnames []st
 		ex.assume(st.pc, g)
 	}
 	return packResults(sig, results)
+}
+
+// applyGhostSets performs the contract's ghost assignments (right-hand sides evaluated in env's state).
+func (ex *Exec) applyGhostSets(st *State, c *FuncContract, env *Env) {
+	for _, gs := range c.GhostSets {
+		g, ok := ex.eng.contracts.Ghosts[gs.Var]
+		if !ok {
+			ex.eng.bindingErrors = append(ex.eng.bindingErrors, fmt.Sprintf("%s: ghostset %s: no such ghost variable", c.Key, gs.Var))
+			continue
+		}
+		var v Value
+		func() {
+			defer func() {
+				if r := recover(); r != nil {
+					if ce, ok := r.(compileErr); ok {
+						ex.eng.bindingErrors = append(ex.eng.bindingErrors, fmt.Sprintf("%s: ghostset %s: %s", c.Key, gs.Text, ce.msg))
+						return
+					}
+					panic(r)
+				}
+			}()
+			v = env.compile(gs.E, 0)
+		}()
+		if len(v.C) != 1 {
+			continue
+		}
+		srt := ex.eng.ghostSort(g)
+		st.heap.m[regKey("GH:"+gs.Var, srt)] = v.C[0]
+	}
 }
 
 func (ex *Exec) havocModifies(st *State, c *FuncContract, env *Env, fr *Frame) {
